@@ -70,7 +70,7 @@ class SortCase(Case):
         n = self.n
         w = env.reals("w", n, lo=0, hi=1)
         env.assume(ssum(list(w)) == 1)
-        ow = env.reals("ow", self.K, lo=0, hi=1)
+        ow = env.reals("ow", self.K, lo=-1, hi=2)   # objective weights may be negative as long as they sum to one
         env.assume(ssum(list(ow)) == 1)
         failed = [env.flag(f"failed_{i}") for i in range(n)]
         f = env.reals("f", (n, self.K), lo=-BOUND, hi=BOUND)
@@ -152,7 +152,7 @@ class MappingCase(Case):
         R = self.R
         w = env.reals("w", R, lo=0, hi=1)
         env.assume(ssum(list(w)) == 1)
-        ow = env.reals("ow", self.K, lo=0, hi=1)
+        ow = env.reals("ow", self.K, lo=-1, hi=2)   # objective weights may be negative as long as they sum to one
         env.assume(ssum(list(ow)) == 1)
         failed = [env.flag(f"failed_{i}") for i in range(R)]
         env.assume(Or(*[Not(x) for x in failed]))
@@ -247,6 +247,8 @@ def build_cases(tier):
     sc = lambda a, b, s=0: {"method": "sort-constraint", "options": {"sort": s, "first": a, "last": b}}  # noqa: E731
     add(MappingCase, R=3, K=2, C=1, filters=(so(0, 1), sc(1, 2)), obj_filt=(0, 1), con_filt=(1,))
     add(MappingCase, R=3, K=3, C=1, filters=(so(0, 0, (1,)), so(1, 2, (0, 2))), obj_filt=(1, -1, 0), con_filt=(0,))
+    add(MappingCase, R=3, K=2, C=0, filters=(so(0, 0), so(1, 2)), obj_filt=(1, -1), con_filt=())   # a configured filter nothing refers to comes first
+    add(MappingCase, R=3, K=2, C=1, filters=(so(0, 1), so(2, 2), sc(0, 0)), obj_filt=(2, 2), con_filt=(0,))
     if tier == "thorough":
         add(MappingCase, R=3, K=2, C=2, filters=(so(0, 1), sc(0, 1, 1), so(2, 2, (1,))), obj_filt=(2, 0), con_filt=(-1, 1))
         add(MappingCase, R=4, K=2, C=1, filters=(so(1, 2), sc(0, 1)), obj_filt=(-1, 0), con_filt=(1,))
